@@ -73,8 +73,8 @@ def length_programs(tier):
         R2 = Src("R", 4, {"a": "i", "b": "f", "e": "i"}, nparts + 1)
         unaligned = ["L.b.fillna(R.b)", "L.a.mask(L.a > 1, R.a)", "L.a.where(L.a > 1, R.e)", "L.a + R.a", "L.assign(z=R.e)", "L[['a']].fillna(R[['a']])"]
         for text in unaligned:
-            for wrap in ("LEN({})", "{}.size"):
-                progs.append(Program(wrap.format(text), [srcs[0], R2], ordered=False, family="F06-len", note="unaligned/" + wrap.split("(")[0].strip("{}.") , env_globals=g))
+            for wrap in ("LEN({})", "({}).size"):
+                progs.append(Program(wrap.format(text), [srcs[0], R2], ordered=False, family="F06-len", note="unaligned/" + ("LEN" if "LEN" in wrap else "size") , env_globals=g))
         for text in [n.text for n in nodes] + extra:
             s2 = srcs + ([R] if "R," in text or "R)" in text else [])
             for wrap in ("LEN({})", "{}.size", "LENGTHS({})"):
